@@ -458,6 +458,13 @@ def mon_limits(ctx, conn):
                     viol(ctx, conn, "body-above-limit", dict(len=int(m.group(1)), limit=mrb))
                 fl = kvlist(re.search(r"f=([^,)]*(?:,[0-9a-f-]+:[0-9a-f-]+)*)", args).group(1)) if "f=" in args else []
                 size = sum(len(k) + len(v) + 32 for k, v in fl)
+                # the pseudo-header fields are part of the list too (RFC 7540 6.5.2: name + value + 32 each); :scheme is
+                # not in the record, so this is a lower bound
+                pm = re.search(r"m=([0-9a-f-]*),p=([0-9a-f-]*),a=([0-9a-f-]*)", args)
+                if pm:
+                    for nm, hv in ((":method", pm.group(1)), (":path", pm.group(2)), (":authority", pm.group(3))):
+                        if hv != "-":
+                            size += len(nm) + len(hv) // 2 + 32
                 if mhl > 0 and size > mhl:
                     viol(ctx, conn, "header-list-above-limit", dict(size=size, limit=mhl))
 
